@@ -10,9 +10,13 @@
    document (what that document's operations allocate) and one arena for objects with static storage
    duration.  Nothing observable depends on the numbering.
 
-   The flag [sh] selects between the code as it is ([sh = true]: every `null` token of every parse is THE
-   static object at [null_obj_loc], every hole of a sparse array read through getAsVector is THE static at
-   [null_oh_loc]) and the repaired allocation discipline ([sh = false]: a fresh QPDF_Null each time).
+   The flag [sh] selects the allocation discipline for nulls.  [sh = false] is the code as it is (since fix
+   b456e5d1 in /repo: a fresh QPDF_Null for every `null` token and for every hole of a sparse array that is handed
+   out); this is the model the correspondence runs against and the theorems are about.  [sh = true] is the
+   discipline of the tree before that fix (every `null` token of every parse was THE static object at
+   [null_obj_loc], every hole read through getAsVector THE static at [null_oh_loc]); it is kept as a historical
+   model: the machine-checked witnesses of finding D6 are stated over it, and the check uses it to recognise the
+   finding if it ever comes back.
    No proofs in this file. *)
 From QV Require Import Base.Bytes.
 Local Open Scope N_scope.
